@@ -1,8 +1,9 @@
 (** C07 -- Kalman correction is the exact Bayesian posterior with whitened innovation.
 
     All statements are about the definitions GENERATED from pyins/kalman.py `correct`
-    (Gen/Kalman.v: correct_S, correct_L, correct_ret0 = mean, correct_ret1 = covariance,
-    correct_ret2 = innovation), for an arbitrary real field, arbitrary dimensions n, m and
+    (Gen/Kalman.v: correct_ret0 = mean, correct_ret1 = covariance, correct_ret2 = innovation -- the only
+    generated definitions; the statements mention nothing else that is generated: S = [innov_cov P H R] and
+    the factor L = cholesky S are written with the specification), for an arbitrary real field, arbitrary dimensions n, m and
     arbitrary matrices.  Library behaviour enters as written specifications
     (Spec/LibSpecsMx.v: cho_solve, solve_triangular) and as the hypothesis
     [cholesky_factor] on the opaque oracle [cholesky] (lower triangular, L L^T = S).
@@ -25,7 +26,7 @@ Theorem C07_conditional_mean_cov :
   forall (F : realFieldType) (n m : nat) (cholesky : 'M[F]_m -> 'M[F]_m)
          (x : 'cV[F]_n) (P : 'M[F]_n) (z : 'cV[F]_m) (H : 'M[F]_(m, n)) (R : 'M[F]_m),
   P^T = P -> psd P -> R^T = R -> pd R ->
-  cholesky_factor cholesky (correct_S P H R) ->
+  cholesky_factor cholesky (innov_cov P H R) ->
   [/\ correct_ret0 cholesky x P z H R = cond_mean x P z H R,
       correct_ret1 cholesky P H R = cond_cov P H R,
       cond_cov P H R = schur_compl P (P *m H^T) (H *m P) (innov_cov P H R)
@@ -37,7 +38,7 @@ Print Assumptions C07_conditional_mean_cov.
 Theorem C07_mean_cov_explicit :
   forall (F : fieldType) (n m : nat) (cholesky : 'M[F]_m -> 'M[F]_m)
          (x : 'cV[F]_n) (P : 'M[F]_n) (z : 'cV[F]_m) (H : 'M[F]_(m, n)) (R : 'M[F]_m),
-  P^T = P -> R^T = R -> cholesky_spec cholesky (correct_S P H R) ->
+  P^T = P -> R^T = R -> cholesky_spec cholesky (innov_cov P H R) ->
   correct_ret0 cholesky x P z H R
     = x + P *m H^T *m invmx (H *m P *m H^T + R) *m (z - H *m x) /\
   correct_ret1 cholesky P H R
@@ -51,7 +52,7 @@ Theorem C07_posterior_symmetric_psd_le_prior :
   forall (F : realFieldType) (n m : nat) (cholesky : 'M[F]_m -> 'M[F]_m)
          (P : 'M[F]_n) (H : 'M[F]_(m, n)) (R : 'M[F]_m),
   P^T = P -> psd P -> R^T = R -> pd R ->
-  cholesky_factor cholesky (correct_S P H R) ->
+  cholesky_factor cholesky (innov_cov P H R) ->
   [/\ (correct_ret1 cholesky P H R)^T = correct_ret1 cholesky P H R,
       psd (correct_ret1 cholesky P H R)
     & loewner_le (correct_ret1 cholesky P H R) P].
@@ -72,7 +73,7 @@ Theorem C07_information_form :
   forall (F : realFieldType) (n m : nat) (cholesky : 'M[F]_m -> 'M[F]_m)
          (x : 'cV[F]_n) (P : 'M[F]_n) (z : 'cV[F]_m) (H : 'M[F]_(m, n)) (R : 'M[F]_m),
   P^T = P -> psd P -> R^T = R -> pd R ->
-  cholesky_factor cholesky (correct_S P H R) ->
+  cholesky_factor cholesky (innov_cov P H R) ->
   P \in unitmx ->
   [/\ info_mx P H R \in unitmx,
       correct_ret1 cholesky P H R = info_cov P H R
@@ -85,9 +86,9 @@ Print Assumptions C07_information_form.
 Theorem C07_innovation_whitened :
   forall (F : realFieldType) (n m : nat) (cholesky : 'M[F]_m -> 'M[F]_m)
          (x : 'cV[F]_n) (P : 'M[F]_n) (z : 'cV[F]_m) (H : 'M[F]_(m, n)) (R : 'M[F]_m),
-  psd P -> pd R -> cholesky_factor cholesky (correct_S P H R) ->
-  let L := correct_L cholesky P H R in
-  let S := correct_S P H R in
+  psd P -> pd R -> cholesky_factor cholesky (innov_cov P H R) ->
+  let S := innov_cov P H R in
+  let L := cholesky S in
   let e := z - H *m x in
   let nu := correct_ret2 cholesky x P z H R in
   [/\ is_lower L /\ L *m L^T = S,
@@ -109,11 +110,11 @@ Theorem C07_sequential_eq_joint :
          (z1 : 'cV[F]_m1) (H1 : 'M[F]_(m1, n)) (R1 : 'M[F]_m1)
          (z2 : 'cV[F]_m2) (H2 : 'M[F]_(m2, n)) (R2 : 'M[F]_m2),
   P^T = P -> psd P -> R1^T = R1 -> pd R1 -> R2^T = R2 -> pd R2 ->
-  cholesky_factor chol12 (correct_S P (col_mx H1 H2) (block_mx R1 0 0 R2)) ->
+  cholesky_factor chol12 (innov_cov P (col_mx H1 H2) (block_mx R1 0 0 R2)) ->
   (let x1 := correct_ret0 chol1 x P z1 H1 R1 in
    let P1 := correct_ret1 chol1 P H1 R1 in
-   cholesky_factor chol1 (correct_S P H1 R1) ->
-   cholesky_factor chol2 (correct_S P1 H2 R2) ->
+   cholesky_factor chol1 (innov_cov P H1 R1) ->
+   cholesky_factor chol2 (innov_cov P1 H2 R2) ->
    correct_ret0 chol2 x1 P1 z2 H2 R2
      = correct_ret0 chol12 x P (col_mx z1 z2) (col_mx H1 H2) (block_mx R1 0 0 R2) /\
    correct_ret1 chol2 P1 H2 R2
@@ -121,8 +122,8 @@ Theorem C07_sequential_eq_joint :
   /\
   (let x1 := correct_ret0 chol2 x P z2 H2 R2 in
    let P1 := correct_ret1 chol2 P H2 R2 in
-   cholesky_factor chol2 (correct_S P H2 R2) ->
-   cholesky_factor chol1 (correct_S P1 H1 R1) ->
+   cholesky_factor chol2 (innov_cov P H2 R2) ->
+   cholesky_factor chol1 (innov_cov P1 H1 R1) ->
    correct_ret0 chol1 x1 P1 z1 H1 R1
      = correct_ret0 chol12 x P (col_mx z1 z2) (col_mx H1 H2) (block_mx R1 0 0 R2) /\
    correct_ret1 chol1 P1 H1 R1
@@ -136,7 +137,7 @@ Example C07_hypotheses_satisfiable :
   forall F : realFieldType,
   let P : 'M[F]_1 := 3%:R%:M in let H : 'M[F]_1 := 1%:M in let R : 'M[F]_1 := 1%:M in
   let chol : 'M[F]_1 -> 'M[F]_1 := fun=> 2%:R%:M in
-  [/\ P^T = P /\ psd P, R^T = R /\ pd R, cholesky_factor chol (correct_S P H R)
+  [/\ P^T = P /\ psd P, R^T = R /\ pd R, cholesky_factor chol (innov_cov P H R)
     & P \in unitmx].
 Proof. exact example_correct. Qed.
 Print Assumptions C07_hypotheses_satisfiable.
@@ -151,10 +152,10 @@ Example C07_sequential_hypotheses_satisfiable :
   let chol2 : 'M[F]_m2 -> 'M[F]_m2 := fun=> 1%:M in
   let chol12 : 'M[F]_(m1 + m2) -> 'M[F]_(m1 + m2) := fun=> 1%:M in
   [/\ (P^T = P /\ psd P) /\ (R1^T = R1 /\ pd R1) /\ (R2^T = R2 /\ pd R2),
-      cholesky_factor chol12 (correct_S P (col_mx H1 H2) (block_mx R1 0 0 R2)),
-      cholesky_factor chol1 (correct_S P H1 R1) /\
-      cholesky_factor chol2 (correct_S (correct_ret1 chol1 P H1 R1) H2 R2)
-    & cholesky_factor chol2 (correct_S P H2 R2) /\
-      cholesky_factor chol1 (correct_S (correct_ret1 chol2 P H2 R2) H1 R1)].
+      cholesky_factor chol12 (innov_cov P (col_mx H1 H2) (block_mx R1 0 0 R2)),
+      cholesky_factor chol1 (innov_cov P H1 R1) /\
+      cholesky_factor chol2 (innov_cov (correct_ret1 chol1 P H1 R1) H2 R2)
+    & cholesky_factor chol2 (innov_cov P H2 R2) /\
+      cholesky_factor chol1 (innov_cov (correct_ret1 chol2 P H2 R2) H1 R1)].
 Proof. exact example_sequential. Qed.
 Print Assumptions C07_sequential_hypotheses_satisfiable.
